@@ -91,6 +91,41 @@ def mutations(gc, P, comp_bytes, unc_bytes, rng, pool):
     t = bytearray(nf); t[0] = F_COMP | F_INF; t[-1] = 1; out.append(('inf-with-low-bit', True, bytes(t)))
     t = bytearray(2 * nf); t[0] = F_INF; t[nf] = 1; out.append(('inf-with-y-payload', False, bytes(t)))
     t = bytearray(2 * nf); t[0] = F_INF; t[-1] = 1; out.append(('inf-with-y-payload', False, bytes(t)))
+    # identity flag followed by padding that is not zero but NEUTRAL for a word-wise accumulator: two lanes that cancel under +
+    # (v and 2^w - v), two equal lanes (cancel under xor), all lanes all-ones plus a correcting lane - for lane widths 8, 4 and 2 bytes,
+    # either endianness, lanes chosen anywhere in the string (also lane 0, which holds the flags)
+    for comp in (True, False):
+        n = nf if comp else 2 * nf
+        for w in (8, 4, 2):
+            for _ in range(3):
+                t = bytearray(n); t[0] = F_INF | (F_COMP if comp else 0)
+                lanes = n // w
+                i, j = rng.sample(range(lanes), 2)
+                v = rng.randrange(1, 1 << (8 * w))
+                order = rng.choice(['little', 'big'])
+                kind = rng.choice(['sum', 'xor', 'sum-flags'])
+                if kind == 'sum-flags' or 0 in (i, j):
+                    # one of the two lanes is lane 0: the other lane must cancel the flag byte's contribution as well
+                    i, j = 0, max(i, j, 1)
+                    lane0 = int.from_bytes(bytes(t[0:w]), order)
+                    extra = rng.choice([0, F_GT])              # optionally a stray sort bit, cancelled by the other lane
+                    t[0] |= extra
+                    lane0m = int.from_bytes(bytes(t[0:w]), order) - lane0 if extra else 0
+                    # lanes other than 0 carry v and -(v + stray) so that masked lane 0 + others == 0
+                    k = rng.choice([x for x in range(1, lanes) if x != j] or [j])
+                    if k != j:
+                        t[k * w:(k + 1) * w] = v.to_bytes(w, order)
+                        t[j * w:(j + 1) * w] = ((-(v + lane0m)) % (1 << (8 * w))).to_bytes(w, order)
+                    else:
+                        t[j * w:(j + 1) * w] = ((-lane0m) % (1 << (8 * w))).to_bytes(w, order)
+                elif kind == 'sum':
+                    t[i * w:(i + 1) * w] = v.to_bytes(w, order)
+                    t[j * w:(j + 1) * w] = ((1 << (8 * w)) - v).to_bytes(w, order)
+                else:
+                    t[i * w:(i + 1) * w] = v.to_bytes(w, order)
+                    t[j * w:(j + 1) * w] = v.to_bytes(w, order)
+                if any(t[1:]) or (t[0] & 0x3f):
+                    out.append(('inf-with-accumulator-neutral-padding', comp, bytes(t)))
     # flipped greater flag = the opposite point (valid)
     t = bytearray(cb); t[0] ^= F_GT; out.append(('flip-greater(valid)', True, bytes(t)))
     # y perturbed / negated-and-perturbed
